@@ -81,6 +81,7 @@ func refLifetime(rcode dnsmsg.RCode, ttls []uint32, maxSec uint32) uint64 {
 // VerifH_C08_StorePolicy: what Store puts into the cache: nothing for truncated responses; otherwise a
 // lifetime of exactly the mandated number of seconds.
 func VerifH_C08_StorePolicy_S6() {
+	verifrt.IntegerSolver()
 	verifrt.Unwind(40)
 	sh := verifrt.Shard()
 	r := vRouter(nil, true)
@@ -107,13 +108,11 @@ func VerifH_C08_StorePolicy_S6() {
 
 // VerifH_C08_Ageing: a hit is served with every TTL reduced by the whole seconds elapsed (floor 1), never increased.
 func VerifH_C08_Ageing_S3() {
+	verifrt.IntegerSolver()
 	verifrt.Unwind(40)
 	r := vRouter(nil, true)
 	c := r.cache
 	nrec := verifrt.Shard()
-	if nrec == 2 && !verifrt.Thorough() {
-		nrec = 1 // two-record ageing only in the thorough tier (solver time)
-	}
 	resp, ttls := vTTLResp("resp", nrec, false)
 	verifrt.Assume(!resp.Header.Truncated)
 	q := resp.Questions[0].Copy()
@@ -161,6 +160,7 @@ func VerifH_C08_Ageing_S3() {
 // VerifH_C08_NegativeNeverDisplaces: an error response never displaces a live positive entry, and a
 // failed exchange stores nothing.
 func VerifH_C08_NegativeNeverDisplaces() {
+	verifrt.IntegerSolver()
 	verifrt.Unwind(40)
 	r := vRouter(nil, true)
 	c := r.cache
@@ -192,6 +192,7 @@ func VerifH_C08_NegativeNeverDisplaces() {
 // VerifH_C08_AgeingAllSections: one record in EACH of the three sections with fixed TTLs (100, 7, 3) and an
 // arbitrary clock: every one of them is served aged by the whole seconds elapsed (floor 1) – no section is skipped.
 func VerifH_C08_AgeingAllSections() {
+	verifrt.IntegerSolver()
 	verifrt.Unwind(40)
 	r := vRouter(nil, true)
 	c := r.cache
@@ -326,4 +327,35 @@ func VerifH_C08_StorePolicyRecordKinds_S6() {
 	verifrt.Assert(v != nil, "a complete response is cached")
 	want := refLifetime(m.Header.RCode, ttls, maxSec)
 	verifrt.Assert(expire.Sub(stored) == time.Duration(want)*time.Second, "cache lifetime = smallest record TTL of the message (capped), whatever the record kinds, sections and RDATA values")
+}
+
+// VerifH_C08_BackendExpiry: "nothing is served from cache once its lifetime has elapsed": eviction itself is the cache
+// library's job (otter removes an entry once the time-to-live it was given is over; outside the encoding), so what is
+// decided here is the time-to-live the library is GIVEN: for a response stored at any instant (one record with a TTL
+// from {0, 1, 30, 300, 86400}, NOERROR / NXDOMAIN / SERVFAIL / REFUSED, default maximum), expire − stored is the
+// mandated lifetime (StorePolicy) and the time-to-live handed to the backend ends at that very expire instant:
+// reading-before-Store <= expire − ttl <= reading-after-Store.
+func VerifH_C08_BackendExpiry() {
+	verifrt.IntegerSolver() // clock arithmetic only: the integer back end decides these chains of inequalities at once
+	verifrt.Unwind(40)
+	r := vRouter(nil, true)
+	c := r.cache
+	maxSec := uint32(defaultMaxCacheTtl / time.Second)
+	resp, _ := vTTLResp("resp", 1, false)
+	resp.Header.Truncated = false
+	resp.Header.RCode = []dnsmsg.RCode{0, 3, 2, 5}[verifrt.Choose("rcode", 4)]
+	ttl0 := []uint32{0, 1, 30, 300, 86400}[verifrt.Choose("ttl", 5)]
+	resp.Answers[0].Hdr().TTL = ttl0
+	q := resp.Questions[0]
+	tA := time.Now()
+	c.Store(q, netip.Addr{}, resp)
+	tB := time.Now()
+	v, stored, expire := c.memory.Get(cacheKey(q, ""))
+	verifrt.Assert(v != nil && verifrt.Ghost("otter.sets") == 1, "stored once")
+	verifrt.Reach("stored")
+	ttl := verifrt.GhostDuration("otter.lastttl")
+	_ = maxSec // (the lifetime itself is StorePolicy's subject)
+	verifrt.Assert(!stored.Before(tA) && !stored.After(tB), "stored instant is an instant of the Store call")
+	// the backend's clock starts at some instant of the Store call: expire − tB <= ttl <= expire − tA
+	verifrt.Assert(ttl <= expire.Sub(tA) && ttl >= expire.Sub(tB), "the time-to-live given to the cache backend ends exactly at the entry's expire instant")
 }
